@@ -21,8 +21,6 @@ coefficient 0 is +-f[((t+drift)/step) mod len] with the negacyclic sign.
 from . import common
 
 BES = ["fft64ref", "ntt120ref", "fft64avx", "ntt120avx"]
-KEY_MODSWITCH = "mod_switch_2n:base2k<=log2n"
-KEY_EXT = "execute_block_binary_extended:skipped-wrap-terms"
 
 
 def kv(tokens):
@@ -83,8 +81,6 @@ def run(ctx):
     ctx.assumptions += ["blind path: acc <- acc + (X^{a_i}-1) * (acc [*] BRK_i) multiplies the accumulator's phase by X^{a_i s_i} up to noise below the compared limbs (C04)"]
     broken = []
     witness = None
-    known_ms = []
-    known_ext = []
 
     ok, failures = ctx.proof_gate(["Poulpy.Props.C14"])
     broken += failures
@@ -267,7 +263,7 @@ def run(ctx):
 
     def log2n_of(n):
         return (n - 1).bit_length() + 1
-    compare("modswitch", lines, outl, mout, lambda k, head: ("ms", "b>log2n" if mcases[k][1] > log2n_of(mcases[k][0]) else "b<=log2n", mcases[k][2],
+    compare("modswitch", lines, outl, mout, lambda k, head: ("ms", "b>bits" if mcases[k][1] > log2n_of(mcases[k][0]) - 1 else "b<=bits", mcases[k][2],
                                                                min(len(mcases[k][3]), 3), mcases[k][4], mcases[k][1] % 4, head))
     # property oracle: the result is the torus value scaled to n (= 2*domain), to within rounding
     n_b1 = n_b2 = 0
@@ -279,7 +275,7 @@ def run(ctx):
         m = n.bit_length() - 1
         sgn = -1 if left else 1
         for j, y in enumerate(res):
-            if b > log2n_of(n):
+            if b > m:
                 n_b1 += 1
                 x0 = sgn * rows[0][j]
                 want = (x0 + (1 << (b - m - 1))) >> (b - m)          # round-half-up of x0 * n / 2^b
@@ -291,8 +287,9 @@ def run(ctx):
                 tau_num = sum(sgn * rows[q][j] << (b * (len(rows) - 1 - q)) for q in range(len(rows)))     # tau * 2^(b*len)
                 exact = tau_num * n / (1 << (b * len(rows)))
                 dist = abs(((y - exact) + n / 2) % n - n / 2)
-                if dist > 1.0 and exact % n not in (0,):
-                    known_ms.append({"line": lines[i], "implementation": outl[i], "coefficient": j, "exact_tau_times_n": exact, "got": y})
+                if dist > 1.0:
+                    ctx.oracle_failures += 1
+                    witness = witness or {"kind": "modswitch", "line": lines[i], "implementation": outl[i], "coefficient": j, "exact_tau_times_n": exact, "got": y}
     ctx.cov["modswitch_cases"] = len(mcases)
     ctx.cov["modswitch_values_branch_b_gt_log2n"] = n_b1
     ctx.cov["modswitch_values_branch_b_le_log2n"] = n_b2
@@ -386,9 +383,7 @@ def run(ctx):
                     broken.append(f"blind: {lines[i][:200]} decrypted limb(s) differ from the model's accumulator loop (idx={md.get('idx')})")
             if pt[:nlimbs_cmp] != clear:
                 # the property: the blind result decrypts to the table rotated by the mod-switched index
-                if c["ext"] > 1 and want != clear:
-                    known_ext.append({"line": lines[i], "idx": md.get("idx"), "decrypted_limb0": pt[0][:200], "clear_rotation_limb0": clear[0][:200]})
-                else:
+                if True:
                     ctx.oracle_failures += 1
                     witness = witness or {"kind": "blind-vs-clear", "line": lines[i], "idx": md.get("idx"), "decrypted": pt[0][:200], "clear": clear[0][:200]}
             # property oracle
@@ -413,28 +408,11 @@ def run(ctx):
             else:
                 n_entry += 1
             if want0 is not None and got0 != want0:
-                if c["lweb"] <= (2 * c["nglwe"] * c["ext"] - 1).bit_length() + 1:
-                    known_ms.append({"line": lines[i], "decrypted_coeff0": got0, "want": want0, "why": "mod_switch_2n second branch"})
-                else:
-                    ctx.oracle_failures += 1
-                    witness = witness or {"kind": "blind", "line": lines[i], "decrypted_coeff0": got0, "want": want0}
+                ctx.oracle_failures += 1
+                witness = witness or {"kind": "blind", "line": lines[i], "decrypted_coeff0": got0, "want": want0}
         ctx.cov["blind_rotations"] = nb
         ctx.cov["blind_entry_oracle_checked"] = n_entry
         ctx.samples.append({"request": lines[0], "implementation": outl[0][:200], "model": mout[0][:200] if mout else None})
-
-    if known_ms:
-        ctx.violation("mod_switch_2n with lwe.base2k <= log2(2*domain)+1 returns the index at twice the scale (log2n instead of log2n-1 bits) and, for "
-                      "direction Left, negates only the first limb; blind rotation then evaluates the wrong table entry",
-                      {"witness": known_ms[0], "count": len(known_ms), "theorem": "C14.mod_switch_2n_counterexample",
-                       "rerun": "printf '1 modswitch n=512 b=4 left=0 limbs=3,5|-2,7|6,1\\n' | harness/target/release/pvh lut   (185 = tau*1024, tau*512 = 92.7)"},
-                      True, key=KEY_MODSWITCH)
-    if known_ext:
-        ctx.violation("execute_block_binary_extended drops the wrap-around terms of a key-selected coefficient a_i with a_i mod ext != 0 when "
-                      "a_i div ext = 0 or a_i div ext + 1 = 2N (guards `ai_hi != 0` / `(ai_hi+1) & (2N-1) != 0`): the result is not X^{<a,s>} * LUT",
-                      {"witness": known_ext[0], "count": len(known_ext), "theorem": "C14.blind_ext_counterexample",
-                       "rerun": "printf '1 blind be=ntt120ref nglwe=16 nlwe=6 block=2 ext=8 dist=block p=1 msg=1 left=0 seed=32 rank=1 lweb=19\\n' | harness/target/release/pvh lut"},
-                      True, key=KEY_EXT)
-    ctx.cov["known_finding_occurrences"] = {KEY_MODSWITCH: len(known_ms), KEY_EXT: len(known_ext)}
 
     if broken or witness:
         ctx.log("broken:", *broken[:6])
